@@ -13,3 +13,34 @@ func VHSetId(op Operation, id entity.Id) { op.setId(id) }
 func VHNewOpBase(opType OperationType, author identity.Interface, unixTime int64, id entity.Id) OpBase {
 	return OpBase{OperationType: opType, author: author, UnixTime: unixTime, Nonce: make([]byte, 20), id: id}
 }
+
+// VHCloneBase copies an OpBase including its metadata maps.
+func VHCloneBase(b OpBase) OpBase {
+	c := b
+	if b.Metadata != nil {
+		c.Metadata = map[string]string{}
+		for k, v := range b.Metadata {
+			c.Metadata[k] = v
+		}
+	}
+	if b.extraMetadata != nil {
+		c.extraMetadata = map[string]string{}
+		for k, v := range b.extraMetadata {
+			c.extraMetadata[k] = v
+		}
+	}
+	return c
+}
+
+func (op *SetMetadataOperation[SnapT]) VHClone() Operation {
+	c := *op
+	c.OpBase = VHCloneBase(op.OpBase)
+	return &c
+}
+
+func (op *NoOpOperation[SnapT]) VHClone() Operation {
+	c := *op
+	c.OpBase = VHCloneBase(op.OpBase)
+	return &c
+}
+
